@@ -230,6 +230,132 @@ async fn cross_listener(a: Args, idx: usize, m: refimpl::ss::Method) -> Report {
     rep
 }
 
+/// The 30-second rule against the server's REAL clock after a quiet period. At second 0 a request and a datagram are served
+/// (whatever the server remembers about "now" it remembers from then); a second request and a second datagram are sealed
+/// at second 0 as well, but held back. Nothing at all reaches the server for 32 s. Then the held messages arrive - 32 s
+/// old, each the first thing the server sees after the silence - and must be refused; fresh ones right behind them must
+/// be served (the control without which a dead server would pass).
+async fn stale_after_quiet(a: Args, idx: usize, m: refimpl::ss::Method, users: usize) -> Report {
+    use crate::peer::{ClientOpts, RefClient};
+    let mut rep = Report::new();
+    let mut rng = Rng::derive(a.seed, 0xC105, idx as u64);
+    let cfg = Cfg::random(&mut rng, Proto::Ss(m), users);
+    let dir = work_dir(&a, &format!("c10-q{idx}"));
+    let mut d = Deploy::new(cfg.clone(), Transport::Tcp, true, 2, &dir);
+    d.server_mode = Some("tcp_and_udp".into());
+    let cfgname = format!("{}|users={}|quiet-then-stale", m.name(), users);
+    let (dd, tag) = (d.clone(), format!("c10-q{idx}"));
+    let started = tokio::task::spawn_blocking(move || {
+        let mut server = start_node("server", &dd.server_json(), &dd.dir, &tag, dd.workers, &dd.log_level, None, None).map_err(|e| e.to_string())?;
+        wait_ready(&mut server, Some(dd.server_port), Some(dd.server_port), Duration::from_secs(15))?;
+        Ok::<Node, String>(server)
+    })
+    .await
+    .unwrap();
+    let mut server = match started {
+        Ok(s) => s,
+        Err(e) => {
+            rep.inconclusive(format!("server does not start: {}", e.lines().next().unwrap_or("")));
+            return rep;
+        }
+    };
+    // targets that log the first 8 bytes of what arrives (a tag per message)
+    let l = tokio::net::TcpListener::bind("127.0.0.1:0").await.unwrap();
+    let tport = l.local_addr().unwrap().port();
+    let seen: Arc<std::sync::Mutex<Vec<u64>>> = Arc::new(std::sync::Mutex::new(Vec::new()));
+    let s2 = seen.clone();
+    let tgt = tokio::spawn(async move {
+        while let Ok((mut s, _)) = l.accept().await {
+            let s2 = s2.clone();
+            tokio::spawn(async move {
+                let mut b = [0u8; 64];
+                if let Ok(Ok(n)) = tokio::time::timeout(Duration::from_secs(3), s.read(&mut b)).await {
+                    if n >= 8 {
+                        s2.lock().unwrap().push(u64::from_be_bytes(b[..8].try_into().unwrap()));
+                    }
+                }
+            });
+        }
+    });
+    let u = tokio::net::UdpSocket::bind("127.0.0.1:0").await.unwrap();
+    let uport = u.local_addr().unwrap().port();
+    let s3 = seen.clone();
+    let utgt = tokio::spawn(async move {
+        let mut b = vec![0u8; 2048];
+        while let Ok((n, _)) = u.recv_from(&mut b).await {
+            if n >= 8 {
+                s3.lock().unwrap().push(u64::from_be_bytes(b[..8].try_into().unwrap()));
+            }
+        }
+    });
+    let keys = cfg.ref_client_keys();
+    let now = || std::time::SystemTime::now().duration_since(std::time::UNIX_EPOCH).unwrap().as_secs();
+    let t0 = now();
+    let mut request = |tag: u64, stamp: u64, rng: &mut Rng| {
+        let mut c = RefClient::new(&cfg, &refimpl::addr::Addr::V4([127, 0, 0, 1], tport), rng, stamp, ClientOpts::default());
+        let mut payload = tag.to_be_bytes().to_vec();
+        payload.extend_from_slice(b" a request");
+        c.write(&payload, rng)
+    };
+    let session = rng.next_u64();
+    let datagram = |tag: u64, id: u64, stamp: u64, rng: &mut Rng| {
+        let mut payload = tag.to_be_bytes().to_vec();
+        payload.extend_from_slice(b" a datagram");
+        let p = refimpl::ss::S22UdpPacket { session_id: session, packet_id: id, type_byte: 0, timestamp: stamp, client_session_id: None, padding: vec![], addr: refimpl::addr::Addr::V4([127, 0, 0, 1], uport), payload };
+        refimpl::ss::s22_udp_client_encode(m, &keys, &p, &rng.arr())
+    };
+    let (r_now, r_held, d_now, d_held) = (request(1, t0, &mut rng), request(2, t0, &mut rng), datagram(11, 1, t0, &mut rng), datagram(12, 2, t0, &mut rng));
+    let us = tokio::net::UdpSocket::bind("127.0.0.1:0").await.unwrap();
+    play(d.server_port, &r_now, Duration::from_millis(300)).await;
+    let _ = us.send_to(&d_now, ("127.0.0.1", d.server_port)).await;
+    tokio::time::sleep(Duration::from_millis(300)).await;
+    let served_first = { let g = seen.lock().unwrap(); (g.contains(&1), g.contains(&11)) };
+    // ---- the silence
+    tokio::time::sleep(Duration::from_secs(32)).await;
+    let age = now() - t0;
+    // each held message is the FIRST thing its listener sees after the silence
+    play(d.server_port, &r_held, Duration::from_millis(300)).await;
+    let _ = us.send_to(&d_held, ("127.0.0.1", d.server_port)).await;
+    tokio::time::sleep(Duration::from_millis(300)).await;
+    let t1 = now();
+    let (r_fresh, d_fresh) = (request(3, t1, &mut rng), datagram(13, 3, t1, &mut rng));
+    play(d.server_port, &r_fresh, Duration::from_millis(300)).await;
+    let _ = us.send_to(&d_fresh, ("127.0.0.1", d.server_port)).await;
+    tokio::time::sleep(Duration::from_millis(400)).await;
+    let g: Vec<u64> = seen.lock().unwrap().clone();
+    rep.evaluations += 6;
+    rep.mon("messages_presented_32_s_after_they_were_sealed", 2);
+    let w = json!({"seed": a.seed, "config": cfgname, "age_of_the_held_messages_s": age, "tags_seen_by_the_targets": g, "meaning": {"1/11": "request / datagram served at second 0", "2/12": "sealed at second 0, presented after the silence", "3/13": "fresh, presented right behind"}, "server_log": server.log_tail(6)});
+    if !served_first.0 || !g.contains(&3) {
+        rep.inconclusive(format!("{cfgname}: the control requests were not served (nothing observed)"));
+    } else {
+        rep.case(&(idx, "quiet-stale-request"), true);
+        if g.contains(&2) {
+            rep.violation(format!("C10|nodes|{}|request-sealed-{}-s-ago-served-after-a-quiet-period", cfgname, if age >= 31 { ">30" } else { "?" }), format!("{cfgname}: a request whose timestamp was {age} s old was served (it was the first message after 32 s of silence)"), w.clone());
+        } else {
+            rep.mon("stale_messages_refused_after_a_quiet_period", 1);
+        }
+    }
+    if !served_first.1 || !g.contains(&13) {
+        rep.inconclusive(format!("{cfgname}: the control datagrams were not relayed (nothing observed)"));
+    } else {
+        rep.case(&(idx, "quiet-stale-datagram"), true);
+        if g.contains(&12) {
+            rep.violation(format!("C10|nodes|{}|datagram-sealed-{}-s-ago-relayed-after-a-quiet-period", cfgname, if age >= 31 { ">30" } else { "?" }), format!("{cfgname}: a datagram whose timestamp was {age} s old was relayed (it was the first datagram after 32 s of silence)"), w);
+        } else {
+            rep.mon("stale_messages_refused_after_a_quiet_period", 1);
+        }
+    }
+    if !server.alive() {
+        rep.violation(format!("C10|nodes|{}|server-exited", cfgname), "server exited".to_string(), json!({"log": server.log_tail(8)}));
+    }
+    tgt.abort();
+    utgt.abort();
+    drop(server);
+    let _ = std::fs::remove_dir_all(&dir);
+    rep
+}
+
 async fn quic_open(port: u16) -> Option<(quinn::Endpoint, quinn::Connection, quinn::SendStream, quinn::RecvStream)> {
     use tokio_rustls::rustls::pki_types::pem::PemObject;
     use tokio_rustls::rustls::pki_types::CertificateDer;
@@ -276,6 +402,13 @@ pub async fn run(a: &Args) -> Report {
             let a = a.clone();
             let x = *x;
             hs.push(tokio::spawn(async move { cross_listener(a, k, x).await }));
+        }
+    }
+    // real time: 33 s each, side by side with everything above
+    for (k, x) in all.iter().enumerate() {
+        if a.thorough || (k + a.seed as usize) % 2 == 0 {
+            let (a, x) = (a.clone(), *x);
+            hs.push(tokio::spawn(async move { stale_after_quiet(a, k, x, if x.supports_eih() && k % 2 == 0 { 2 } else { 0 }).await }));
         }
     }
     let mut rep = Report::new();
